@@ -255,9 +255,9 @@ Proof. vm_compute. auto. Qed.
 Example unwrap_qi_nonvacuous :
   call_unwrap (wit_ctx wit_post 0 []) wit_self 100000 5000 [] wit_qi 1200 30000
   = (true, 70000, 3800, [mkEtx wit_qi wit_self 1200 0 EtxUnwrapQiType 30000]) /\
-  call_unwrap (wit_ctx wit_post 0 []) wit_self 100000 5000 (repeatN dummy_etx 65536 []) wit_qi 1200 30000
-  = (false, 70000, 5000, repeatN dummy_etx 65536 []).
-Proof. vm_compute. split; reflexivity. Qed.
+  (let res := call_unwrap (wit_ctx wit_post 0 []) wit_self 100000 5000 (prefilled 65536) wit_qi 1200 30000 in
+   fst (fst (fst res)) = false /\ snd (fst res) = 5000 /\ lenN (snd res) = 65536).
+Proof. vm_compute. repeat split; reflexivity. Qed.
 
 (* top-level call to a foreign address: one ETX, debit = value, gas forwarded *)
 Example create_etx_call_nonvacuous :
